@@ -133,13 +133,17 @@ func (q *qelim) skolemise(t *Term, prove bool) *Term {
 		goalLike := (t.Op == "forall") == prove
 		if goalLike {
 			m := map[*Term]*Term{}
-			for _, bv := range t.BVs {
-				sk := Fresh("sk!"+bv.Name, bv.S)
+			for bi, bv := range t.BVs {
+				sk := skolemCache[[2]int{t.id, bi}]
+				if sk == nil {
+					sk = Fresh("sk!"+bv.Name, bv.S)
+					skolemCache[[2]int{t.id, bi}] = sk
+				}
 				m[bv] = sk
 				q.skolems = append(q.skolems, sk)
 				q.addCand(sk)
 			}
-			body := Subst(t.Args[0], m, map[*Term]*Term{})
+			body := substBound(t.Args[0], m, map[*Term]*Term{})
 			r = q.skolemise(body, prove)
 		} else {
 			// keep for pass 2, but process the body (it may contain goal-like quantifiers: not supported nested)
@@ -160,6 +164,50 @@ func (q *qelim) skolemise(t *Term, prove bool) *Term {
 }
 
 var boundMemo = map[*Term]bool{}
+
+// instCache: body of a one-variable quantifier instantiated at a candidate (terms are hash-consed, so the
+// result only depends on the two ids)
+var instCache = map[[2]int]*Term{}
+
+// skolemCache: one skolem constant per (quantifier term, bound variable): the same formula gets the same witness
+var skolemCache = map[[2]int]*Term{}
+
+// substBound is Subst restricted to subterms that mention a bound variable at all
+func substBound(t *Term, m map[*Term]*Term, memo map[*Term]*Term) *Term {
+	if r, ok := m[t]; ok {
+		return r
+	}
+	if len(t.Args) == 0 || !hasBoundVar(t) {
+		return t
+	}
+	if r, ok := memo[t]; ok {
+		return r
+	}
+	na := make([]*Term, len(t.Args))
+	ch := false
+	for i, a := range t.Args {
+		na[i] = substBound(a, m, memo)
+		if na[i] != a {
+			ch = true
+		}
+	}
+	r := t
+	if ch {
+		r = rebuild(t, na)
+	}
+	memo[t] = r
+	return r
+}
+
+func instAt(q *Term, c *Term) *Term {
+	key := [2]int{q.id, c.id}
+	if r, ok := instCache[key]; ok {
+		return r
+	}
+	r := substBound(q.Args[0], map[*Term]*Term{q.BVs[0]: c}, map[*Term]*Term{})
+	instCache[key] = r
+	return r
+}
 
 // hasBoundVar: does the term mention a variable that is bound by some quantifier (named k!n / o!n / sk are free)
 func hasBoundVar(t *Term) bool {
@@ -291,9 +339,7 @@ func (q *qelim) instantiate1(t *Term, prove bool, depth int) *Term {
 			if c.S != t.BVs[0].S {
 				continue
 			}
-			m := map[*Term]*Term{t.BVs[0]: c}
-			inst := Subst(t.Args[0], m, map[*Term]*Term{})
-			parts = append(parts, q.instantiate(inst, prove, depth+1))
+			parts = append(parts, q.instantiate(instAt(t, c), prove, depth+1))
 		}
 		if t.Op == "forall" {
 			return And(parts...)
@@ -372,7 +418,7 @@ func qfVersion(assumptions []*Term, goal *Term) (as []*Term, g *Term, ok bool) {
 					continue
 				}
 				done[k] = true
-				inst := Subst(f.Args[0], map[*Term]*Term{f.BVs[0]: ix}, map[*Term]*Term{})
+				inst := instAt(f, ix)
 				out = append(out, inst)
 				cur = append(cur, inst)
 				added = true
